@@ -135,6 +135,9 @@ pub struct StepObs {
     /// mutable views: the read-only re-borrow `(&view_mut).view()` shows the same position
     /// (prefix, value, sides, entries); always true for read-only views
     pub reborrow_same: bool,
+    /// first inconsistency of the view with itself, if any: a `clone()` shows another position, or
+    /// consuming one of its iterators through fold/last/count/nth/size_hint disagrees with `next()`
+    pub self_bad: Option<(String, String)>,
 }
 
 #[derive(Clone, Debug, PartialEq)]
@@ -358,6 +361,9 @@ pub struct PairObs {
     pub written_l: Vec<(Key, u64)>,
     pub written_r: Vec<(Key, u64)>,
     pub val_size: usize,
+    /// read-only set operations: consuming the iterator another way (k `next()` calls, then
+    /// fold / last / count / nth / ..., `size_hint`) disagrees with the plain `next()` sequence
+    pub proto_bad: Option<(String, String)>,
 }
 
 /// two disjoint mutable views of one map: `base` program, then `split()`, then each side navigates
